@@ -86,7 +86,7 @@ func (g *tmplGen) mixture() string {
 	parts := 1 + g.r.Intn(3)
 	for i := 0; i < parts; i++ {
 		if g.r.Chance(40) {
-			sb.WriteString(g.r.Pick([]string{"a", "x y", "-", "é", "1 < 2", "&", "$", "{", "}", " ", ":", "中"}))
+			sb.WriteString(g.r.Pick([]string{"a", "x y", "-", "é", "1 < 2", "&", "$", "{", "}", " ", ":", "中", "%", "100%", "%d", "%s%%", "%!v", "%[1]s"}))
 		} else {
 			sb.WriteString("${" + g.printable() + "}")
 		}
